@@ -23,7 +23,8 @@ REQUIRED = ["angle-class.small-angle(|a|<=0.05)", "angle-class.general-angle", "
             "class.Scenario", "class.PlanningProblemSet", "class.PMState", "class.EnvironmentObstacle",
             "scenario-has-all-roles", "undo", "uncertain-state", "goal-state-without-position",
             "contract.translate_rotate.Scenario", "contract.translate_rotate.LaneletNetwork",
-            "contract.translate_rotate.GoalRegion", "part.Trajectory-in-DynamicObstacle",
+            "contract.translate_rotate.GoalRegion", "contract.translate_rotate.containment-probe",
+            "part.Trajectory-in-DynamicObstacle",
             "part.Trajectory-in-Scenario", "part.LaneletNetwork-in-Scenario", "part-with-derived-occupancies",
             "class.NetworkSharedArrays", "class.IntDtype"]
 ASSUMPTIONS = ["tolerance 1e-9*(1+|p|+|t|) on points, 1e-8 on angles (mod 2pi)",
